@@ -624,410 +624,6 @@ def C10(ctx):
         ps, pm = proj(firing_only(toks)), proj(firing_only(ctx.model[i]))
         if ps != pm:
             bad = [k for k in sorted(set(ps) | set(pm), key=str) if ps.get(k) != pm.get(k)][0]
-            fail('C02', 'exit/action/entry sequence in root region %s differs from the model' % (bad,), ctx, i,
-                 sut_seq=ps.get(bad), model_seq=pm.get(bad), ids_before=ids_before(ctx, i))
-        if ids_of(ctx.sut[i]) != ids_of(ctx.model[i]):
-            # same behaviours ran but the configuration afterwards differs: that is this property ("afterwards T is active")
-            gs, gm = group_ga(ctx, ctx.sut[i]), group_ga(ctx, ctx.model[i])
-            if gs == gm:
-                fail('C02', 'active configuration after the operation differs from the model', ctx, i,
-                     sut_ids=ids_of(ctx.sut[i]), model_ids=ids_of(ctx.model[i]))
-            classes['diverged_elsewhere'] += 1
-            break
-        if c['op'] == 'P':
-            classes['steps'] += 1
-            for rr, seq in ps.items():
-                exs = [parse(t)[1] for t in seq if t.startswith('ex:')]
-                ens = [parse(t)[1] for t in seq if t.startswith('en:')]
-                acts = [t for t in seq if t[0] == 'a']
-                cls = None
-                if len(exs) >= 3 or len(ens) >= 3:
-                    cls = 'cascade'
-                elif exs and ens and exs[-1] == ens[0]:
-                    cls = 'self_transition'
-                elif acts and not exs and not ens:
-                    cls = 'internal'
-                if cls:
-                    classes[cls] += 1
-                    nontrivial.append((ctx.spec['id'], ids_before(ctx, i), c['ev'], tuple(t.split('/')[0] for t in seq)))
-    return dict(nontrivial=nontrivial, classes=classes)
-
-
-# ---------------------------------------------------------------------------------------------- C06
-def C06(ctx):
-    """Orthogonal regions: every region once and in declaration order; handled bit <=> something taken;
-    zero <=> nothing matched; no_transition exactly when zero, once per root region, on the root machine only.
-    Model-free invariants, plus the code class compared with the model (R-result)."""
-    st = ctx.static
-    root = ctx.spec['root']
-    nontrivial = []
-    classes = Counter()
-    for i, c in enumerate(ctx.case):
-        if i >= len(ctx.sut):
-            break
-        if c['op'] != 'P':
-            if not sync_or_stop(ctx, i, classes):
-                break
-            continue
-        toks = ctx.sut[i]
-        parsed = [parse(t) for t in toks]
-        # 1. region order, every region offered once: per machine the region indices of attributable tokens never decrease
-        last = {}
-        for p in parsed:
-            # dispatch phase only: guards and actions belong to the row of one region; exit/entry cascades of a
-            # submachine legitimately walk its regions again and are covered by the run comparison below
-            if not p or p[0] not in ('g', 'a'):
-                continue
-            o = tok_owner(ctx, p)
-            if not o:
-                continue
-            for (mach, reg) in region_chain(ctx, o):
-                if reg is None:
-                    continue
-                if mach in last and reg < last[mach]:
-                    fail('C06', 'machine %s: behaviour of region %d observed after region %d (regions not processed once each in order)'
-                         % (mach, reg, last[mach]), ctx, i)
-                last[mach] = reg
-        def runs(tk):
-            out = []
-            for t in tk:
-                q = parse(t)
-                if not q or q[0] not in ('g', 'a', 'en', 'ex'):
-                    continue
-                o = tok_owner(ctx, q)
-                rr = root_region_of(ctx, o) if o else None
-                if not out or out[-1] != rr:
-                    out.append(rr)
-            return out
-        if runs(toks) != runs(ctx.model[i]):
-            fail('C06', 'order in which the root regions reacted %s differs from the model %s' % (runs(toks), runs(ctx.model[i])), ctx, i)
-        code = code_of(toks)
-        visible = any(p and p[0] in ('a', 'en', 'ex') for p in parsed)
-        guards = any(p and p[0] == 'g' for p in parsed)
-        nts = [p for p in parsed if p and p[0] == 'nt']
-        before = st.parse_ids(ids_before(ctx, i))
-        # 2. handled <=> something taken (the generator gives every guard-less internal row an action, so "taken" is visible)
-        if (code == 'H') != visible:
-            fail('C06', 'handled bit is %s but %s transition behaviour ran' % ('set' if code == 'H' else 'clear', 'a' if visible else 'no'), ctx, i)
-        # 3. zero <=> nothing matched anywhere
-        if (code == 'Z') != (not visible and not guards):
-            fail('C06', 'return code is %s although %s' % ('zero' if code == 'Z' else 'non-zero',
-                                                          'candidates were consulted' if (visible or guards) else 'nothing matched'), ctx, i)
-        # 4. no_transition exactly when zero: once per root region with that region's active state, never on a submachine
-        exp = sorted(before.get(root['name'], [])) if code == 'Z' else []
-        got = sorted(p[2] for p in nts)
-        if any(p[1] != root['name'] for p in nts):
-            fail('C06', 'no_transition invoked on a submachine', ctx, i)
-        if got != exp:
-            fail('C06', 'no_transition calls %s, expected %s' % (got, exp), ctx, i)
-        mcode = code_of(ctx.model[i])
-        if mcode != code:
-            fail('C06', 'result class %s differs from the model (%s)' % (code, mcode), ctx, i)
-        # non-triviality: outcomes differ between root regions, or nothing matched
-        outcome = {}
-        for p in parsed:
-            if not p or p[0] not in ('g', 'a', 'en', 'ex'):
-                continue
-            o = tok_owner(ctx, p)
-            rr = root_region_of(ctx, o) if o else None
-            if rr is None:
-                continue
-            cur = outcome.get(rr, 'none')
-            if p[0] == 'g' and cur == 'none':
-                cur = 'rejected'
-            if p[0] in ('a', 'en', 'ex'):
-                cur = 'taken'
-            outcome[rr] = cur
-        outs = [outcome.get(r, 'none') for r in range(len(root['regions']))]
-        if (len(root['regions']) >= 2 and len(set(outs)) >= 2) or code == 'Z':
-            nontrivial.append((ctx.spec['id'], ids_before(ctx, i), c['ev'], tuple(outs), code))
-            classes['mixed_outcomes' if len(set(outs)) >= 2 else 'nothing_matched'] += 1
-        classes['steps'] += 1
-        if not sync_or_stop(ctx, i, classes):
-            break
-    return dict(nontrivial=nontrivial, classes=classes)
-
-
-# ---------------------------------------------------------------------------------------------- C07
-def C07(ctx):
-    """Hierarchy: level projection of guards/actions/cascades equals the model; exits innermost first, entries outermost
-    first; a submachine that is not active contributes no behaviour."""
-    st = ctx.static
-    nontrivial = []
-    classes = Counter()
-    for i, c in enumerate(ctx.case):
-        if i >= len(ctx.sut):
-            break
-        def proj(toks):
-            out = {}
-            for t in toks:
-                p = parse(t)
-                if not p or p[0] not in ('g', 'a', 'en', 'ex'):
-                    continue
-                o = tok_owner(ctx, p)
-                if not o:
-                    continue
-                rr = root_region_of(ctx, o)
-                lvl = st.level[o[0]]
-                item = (p[0], lvl)
-                seq = out.setdefault(rr, [])
-                if not seq or seq[-1] != item or p[0] in ('en', 'ex'):
-                    seq.append(item)
-            return out
-        ps, pm = proj(ctx.sut[i]), proj(ctx.model[i])
-        if ps != pm:
-            bad = [k for k in sorted(set(ps) | set(pm), key=str) if ps.get(k) != pm.get(k)][0]
-            fail('C07', 'level sequence in root region %s differs from the model' % (bad,), ctx, i,
-                 sut_levels=ps.get(bad), model_levels=pm.get(bad), ids_before=ids_before(ctx, i))
-        # inactive submachines are silent
-        before = st.parse_ids(ids_before(ctx, i)) if i > 0 else {}
-        after = st.parse_ids(ids_of(ctx.sut[i]) or 'ids{}')
-        act = set(st.active_machines(before)) | set(st.active_machines(after)) if c['op'] != 'S' else set(st.active_machines(after))
-        for t in ctx.sut[i]:
-            p = parse(t)
-            if p and p[0] in ('g', 'a', 'en', 'ex'):
-                o = tok_owner(ctx, p)
-                if o and o[0] not in act:
-                    fail('C07', 'behaviour %s of submachine %s ran although it is not active' % (t, o[0]), ctx, i)
-        if c['op'] == 'P':
-            classes['steps'] += 1
-            for rr, seq in ps.items():
-                glv = [l for (k, l) in seq if k == 'g']
-                alv = [l for (k, l) in seq if k in ('a', 'en', 'ex')]
-                if len(set(glv)) >= 2 or (alv and glv and min(alv) > min(glv)) or (glv and alv and max(glv) > min(alv)):
-                    nontrivial.append((ctx.spec['id'], ids_before(ctx, i), c['ev'], tuple(seq)))
-                    classes['bubbled'] += 1
-                    if len(set(glv)) >= 3:
-                        classes['bubbled_3_levels'] += 1
-        if not sync_or_stop(ctx, i, classes):
-            break
-    return dict(nontrivial=nontrivial, classes=classes)
-
-
-# ---------------------------------------------------------------------------------------------- C08
-def C08(ctx):
-    """History policies: the entry behaviours invoked on (re-)entry of a submachine and its active states afterwards
-    equal R-history (initial / last active / last active iff the entering event is listed), for the regions not named
-    by an explicit target."""
-    st = ctx.static
-    nontrivial = []
-    classes = Counter()
-    hist_machines = {nm for nm, m in st.machine.items() if m.get('history', 'none') != 'none'}
-    for i, c in enumerate(ctx.case):
-        if i >= len(ctx.sut):
-            break
-        def proj(toks):
-            out = {}
-            for t in toks:
-                p = parse(t)
-                if p and p[0] == 'en':
-                    o = tok_owner(ctx, p)
-                    out.setdefault(root_region_of(ctx, o) if o else None, []).append(t)
-            return out
-        ps, pm = proj(ctx.sut[i]), proj(ctx.model[i])
-        if ps != pm:
-            bad = [k for k in sorted(set(ps) | set(pm), key=str) if ps.get(k) != pm.get(k)][0]
-            fail('C08', 'entry behaviours in root region %s differ from the model' % (bad,), ctx, i,
-                 sut_seq=ps.get(bad), model_seq=pm.get(bad), ids_before=ids_before(ctx, i))
-        si, mi = ids_of(ctx.sut[i]), ids_of(ctx.model[i])
-        if si != mi:
-            # only the configuration of active machines is compared here
-            a = st.parse_ids(si) if si else {}
-            b = st.parse_ids(mi) if mi else {}
-            act = st.active_machines(a)
-            if any(a.get(m) != b.get(m) for m in act):
-                entered = {parse(t)[1] for t in ctx.sut[i] if parse(t) and parse(t)[0] == 'en'}
-                if entered & set(st.machine):
-                    fail('C08', 'active states after (re-)entry differ from the model', ctx, i, sut_ids=si, model_ids=mi)
-                classes['diverged_elsewhere'] += 1
-                break
-        before = st.parse_ids(ids_before(ctx, i)) if i > 0 else {}
-        for t in ctx.sut[i]:
-            p = parse(t)
-            if p and p[0] == 'en' and p[1] in hist_machines:
-                m = st.machine[p[1]]
-                init = [reg[0] for reg in m['regions']]
-                remembered = before.get(p[1], init)
-                classes['reentry_with_history_machine'] += 1
-                if remembered != init:
-                    h = m['history']
-                    evn = p[3].split('#')[0]
-                    listed = h == 'always' or evn in h.get('shallow', [])
-                    nontrivial.append((ctx.spec['id'], p[1], tuple(remembered), evn, tuple(x.split('/')[0] for x in ctx.sut[i] if x.startswith('en:'))))
-                    classes['restore_listed' if listed else 'restore_not_listed'] += 1
-                    tg = [r for r in st.machine[st.parent[p[1]]]['table'] if isinstance(r.get('tgt'), dict) and list(r['tgt'].values())[0][0] == p[1] and r['ev'] == evn]
-                    if tg:
-                        classes['explicit_entry_with_memory'] += 1
-    return dict(nontrivial=nontrivial, classes=classes)
-
-
-# ---------------------------------------------------------------------------------------------- C09
-def pseudo_keys(ctx):
-    """row keys of rows that use a pseudo construct, names of pseudo states, exit-point events per submachine"""
-    st = ctx.static
-    if hasattr(st, '_pseudo'):
-        return st._pseudo
-    rows = set()
-    for (nm, ri, kind, r, key) in st.rows:
-        if isinstance(r.get('tgt'), dict) or not isinstance(r['src'], str):
-            rows.add(key)
-        if isinstance(r.get('tgt'), str) and st.machine[nm]['states'][r['tgt']]['kind'] == 'exit_pt':
-            rows.add(key)
-        if isinstance(r['src'], str) and st.machine[nm]['states'][r['src']]['kind'] == 'entry_pt':
-            rows.add(key)
-    names = {s for s, (nm, ri) in st.state_owner.items() if st.machine[nm]['states'][s]['kind'] in ('entry_pt', 'exit_pt', 'explicit')}
-    exit_events = {}
-    for nm, m in st.machine.items():
-        for s, sd in m['states'].items():
-            if sd['kind'] == 'exit_pt':
-                exit_events.setdefault(nm, set()).add(sd['event'])
-    st._pseudo = (rows, names, exit_events)
-    return st._pseudo
-
-
-def C09(ctx):
-    """Explicit entry, fork, entry point, exit point: steps that touch a pseudo construct must equal the model token
-    for token (states entered, order, the event every behaviour receives, outer exit-point row only while the exit
-    point is active)."""
-    st = ctx.static
-    rows, names, exit_events = pseudo_keys(ctx)
-    nontrivial = []
-    classes = Counter()
-    for i, c in enumerate(ctx.case):
-        if i >= len(ctx.sut):
-            break
-        touches = None
-        for toks in (ctx.sut[i], ctx.model[i]):
-            for t in toks:
-                p = parse(t)
-                if not p:
-                    continue
-                if p[0] in ('en', 'ex') and p[1] in names:
-                    touches = touches or 'pseudo_state'
-                elif p[0] == 'g' and st.atom_owner.get(p[1], (0, 0, None))[2] in rows:
-                    touches = touches or 'pseudo_row'
-                elif p[0] == 'a' and st.action_owner.get(p[1], (0, 0, None))[2] in rows:
-                    touches = touches or 'pseudo_row'
-        if c['op'] == 'P' and not touches and i > 0:
-            evn = ctx.spec['events'][c['ev']]['name']
-            before = st.parse_ids(ids_before(ctx, i))
-            for nm in st.active_machines(before):
-                if evn in exit_events.get(nm, ()) and not any(
-                        st.machine[nm]['states'][s]['kind'] == 'exit_pt' for s in before.get(nm, [])):
-                    touches = 'exit_event_from_outside'
-        if touches:
-            core_s = [t for t in ctx.sut[i] if not t.startswith('ids{')]
-            core_m = [t for t in ctx.model[i] if not t.startswith('ids{')]
-            if core_s != core_m:
-                k = 0
-                while k < min(len(core_s), len(core_m)) and core_s[k] == core_m[k]:
-                    k += 1
-                fail('C09', 'step through a pseudo state differs from the model at token %d (%s vs %s)' %
-                     (k, core_s[k] if k < len(core_s) else '<end>', core_m[k] if k < len(core_m) else '<end>'), ctx, i,
-                     ids_before=ids_before(ctx, i), touches=touches)
-            if ids_of(ctx.sut[i]) != ids_of(ctx.model[i]):
-                a, b = st.parse_ids(ids_of(ctx.sut[i])), st.parse_ids(ids_of(ctx.model[i]))
-                act = st.active_machines(a)
-                if any(a.get(m) != b.get(m) for m in act):
-                    fail('C09', 'active configuration after a pseudo-state step differs from the model', ctx, i,
-                         sut_ids=ids_of(ctx.sut[i]), model_ids=ids_of(ctx.model[i]))
-            classes[touches] += 1
-            nontrivial.append((ctx.spec['id'], ids_before(ctx, i), c.get('ev'), tuple(t.split('#')[0] for t in core_s)))
-        if not sync_active(ctx, i, classes):
-            break
-    return dict(nontrivial=nontrivial, classes=classes)
-
-
-def sync_active(ctx, i, classes):
-    """model and SUT agree on the configuration of all *active* machines after op i"""
-    st = ctx.static
-    si, mi = ids_of(ctx.sut[i]), ids_of(ctx.model[i])
-    if si == mi:
-        return True
-    if not si or not mi:
-        classes['diverged_elsewhere'] += 1
-        return False
-    a, b = st.parse_ids(si), st.parse_ids(mi)
-    if any(a.get(m) != b.get(m) for m in st.active_machines(a)) or st.active_machines(a) != st.active_machines(b):
-        classes['diverged_elsewhere'] += 1
-        return False
-    return True
-
-
-# ---------------------------------------------------------------------------------------------- C10
-def eval_expr(g, val):
-    if g is None:
-        return True
-    if g[0] == 'g':
-        return bool((val >> g[1]) & 1)
-    if g[0] == 'not':
-        return not eval_expr(g[1], val)
-    if g[0] == 'and':
-        return eval_expr(g[1], val) and eval_expr(g[2], val)
-    return eval_expr(g[1], val) or eval_expr(g[2], val)
-
-
-def C10(ctx):
-    """Completion transitions: per (machine, region) the completion behaviours equal the model; completion work precedes
-    every other pending occurrence (event-run order equals the model's); no_transition never carries a completion
-    event; at every quiescent point no active simple state has an enabled completion transition left un-fired
-    (model-free, uses the frozen guard values)."""
-    st = ctx.static
-    nontrivial = []
-    classes = Counter()
-    frozen = 0
-    cg = S.completion_guard_atoms(ctx.spec)
-    by_state = {}
-    for a, s in cg.items():
-        by_state.setdefault(s, []).append(a)
-    blocked_kinds = ('terminate', 'interrupt')
-    for i, c in enumerate(ctx.case):
-        if i >= len(ctx.sut):
-            break
-        val = c.get('val', 0)
-        toks = ctx.sut[i]
-        for t in toks:
-            p = parse(t)
-            if p and p[0] == 'en':
-                for a in by_state.get(p[1], ()):
-                    frozen = (frozen & ~(1 << a)) | (val & (1 << a))
-            if p and p[0] == 'nt' and p[3] == 'none':
-                fail('C10', 'no_transition reported for a completion event', ctx, i)
-        def proj(tk):
-            out = {}
-            for t in tk:
-                p = parse(t)
-                if p and p[0] in ('g', 'a', 'en', 'ex') and p[3] == 'none':
-                    o = tok_owner(ctx, p)
-                    if o:
-                        # attribute to the region of the machine owning the completion row: for en/ex of nested states
-                        # use the chain element at the level of the row; simplest stable key: root region + machine
-                        out.setdefault(o, []).append(t)
-            return out
-        def collapse(seq):
-            # How often a completion guard is consulted without a firing is not observable behaviour (its atoms are frozen,
-            # the answer cannot change): back asks again once per nesting level that handled an event, back +
-            # favor_compile_time and backmp11 less often. Only the consultations that belong to a firing are compared: the
-            # guard atoms of the rows leaving S that were asked before 'ex:S/none' (each once, in order of first appearance).
-            out, pending = [], []
-            for t in seq:
-                if t.startswith('g'):
-                    if t not in pending:
-                        pending.append(t)
-                    continue
-                if t.startswith('ex:'):
-                    src = t[3:].split('/')[0]
-                    out += [g for g in pending if cg.get(int(g[1:].split('=')[0])) == src]
-                    pending = []
-                out.append(t)
-            return out
-        ps, pm = proj(toks), proj(ctx.model[i])
-        ps = {k: collapse(v) for k, v in ps.items()}
-        pm = {k: collapse(v) for k, v in pm.items()}
-        ps = {k: v for k, v in ps.items() if v}
-        pm = {k: v for k, v in pm.items() if v}
-        if ps != pm:
-            bad = [k for k in sorted(set(ps) | set(pm), key=str) if ps.get(k) != pm.get(k)][0]
             fail('C10', 'completion behaviours of %s differ from the model' % (bad,), ctx, i,
                  sut_seq=ps.get(bad), model_seq=pm.get(bad), ids_before=ids_before(ctx, i))
         def runs(tk):
@@ -1470,6 +1066,11 @@ def deferring_states(ctx):
             lst = sd['machine'].get('as_state', {}).get('deferred') or []
         if lst:
             d[s] = set(lst)
+    # the second mechanism: an unguarded row whose action is Defer
+    for nm, m in st.machine.items():
+        for r in m['table']:
+            if r.get('actions') == 'defer' and r.get('guard') is None and isinstance(r['src'], str):
+                d.setdefault(r['src'], set()).add(r['ev'])
     st._defer = d
     return d
 
@@ -1550,8 +1151,14 @@ def C05(ctx):
                         prev = last_by_type.get(tn)
                         # arrival order is only known exactly for occurrences deferred on arrival (direct calls)
                         if pl in exact and prev is not None and prev[1] in exact and prev[0] > stamp[pl]:
+                            sig = None
+                            if dialect_of(ctx.cfg) == 'mp11' and any(r.get('actions') == 'defer' and r['ev'] == tn
+                                                                      for mm in st.machine.values() for r in mm['table']):
+                                # backmp11 re-dispatches action-deferred events for evaluation; one that is deferred again is
+                                # appended behind the others (documented: only deferral as a state property is FIFO)
+                                sig = 'mp11_action_deferred_occurrences_reordered'
                             fail('C05', 'deferred occurrences of type %s re-offered out of arrival order (#%d, deferred in op %d, after #%d, deferred in op %d)'
-                                 % (tn, pl, stamp[pl], prev[1], prev[0]), ctx, i)
+                                 % (tn, pl, stamp[pl], prev[1], prev[0]), ctx, i, sig=sig)
                         last_by_type[tn] = (stamp[pl], pl)
                         classes['reoffered'] += 1
                         if waited.get(pl, 0) >= 1:
